@@ -21,13 +21,23 @@ for line in open('/verif/selftest/mutants.txt').read().split('\n'):
 for b in blocks:
     for k in ('old','new'):
         b[k]=b[k].rstrip('\n')
+import json
+known=set(f['obligation'] for f in json.load(open('/verif/known_findings.json'))['findings'])
 bad=0
 for b in blocks:
     if not b['id'].startswith(pref): continue
     args=['./bin/tibcvc','verify','-timeout','20','-mutate',b['file']+'|||'+b['old']+'|||'+b['new']]+b['verify'].split()
     out=subprocess.run(args,capture_output=True,text=True).stdout
     hit=[l for l in out.split('\n') if re.match(r'^(failed|undischarged|error)\s',l) and b['expect'] in l]
-    other=[l for l in out.split('\n') if re.match(r'^(failed|undischarged|error)\s',l)]
+    other=[l for l in out.split('\n') if re.match(r'^(failed|undischarged|error)\s',l) and l.split()[1] not in known]
+    if b['expect'].strip()=='NONE':
+        if 'loaded in' not in out:
+            print('SELFTEST %-34s BROKEN (benign edit does not load): %s'%(b['id'],out[-300:].replace('\n',' ')));bad+=1
+        elif other:
+            print('SELFTEST %-34s FALSE ALARM on a benign edit: %s'%(b['id'],other[0].split()[1]));bad+=1
+        else:
+            print('SELFTEST %-34s stays green (benign edit)'%b['id'])
+        continue
     if 'loaded in' not in out:
         print('SELFTEST %-34s BROKEN (mutant does not load): %s'%(b['id'],out[-300:].replace('\n',' ')));bad+=1
     elif hit:
